@@ -325,7 +325,14 @@ OnCbEnter(s, e) ==
 
 OnCbExit(s, e) == R([s EXCEPT !.incb = FALSE], {})
 
-OnCbExited(s, e) == FinishCbEvent(s, e)
+OnCbExited(s, e) ==
+  \* the callback goroutine is gone: whatever the monitor had queued for it (the queue did not overflow: those were dropped
+  \* at submission) must have been delivered first
+  LET r == FinishCbEvent(s, e)
+      lostErr == Gated(s) /\ \E i \in 1..Len(s.q) : s.q[i].kind = "werr"
+      lostNew == Gated(s) /\ \E i \in 1..Len(s.q) : s.q[i].kind = "newcfg"
+  IN R(r.s, r.v \cup (IF lostErr THEN {V(s, e, "C04_ErrCbMissing")} ELSE {})
+                \cup (IF lostNew THEN {V(s, e, "C06_Skipped")} ELSE {}))
 
 (* ------------------------------- API ------------------------------------- *)
 OnView(s, e) ==
